@@ -228,6 +228,35 @@ def main():
                 tgt = (k, msg)
         degraded.append({'obligation': oid, 'reason': tgt[1] if tgt else 'not generated'})
 
+    # ---- bounded stand-ins (never counted as proved): contracts marked bounded={...} are searched on the real code --------
+    bounded = []
+    for key, c in REG.contracts.items():
+        if prop in c['props'] and c.get('bounded') and args.only in key:
+            b = c['bounded']
+            try:
+                p = subprocess.run([VENV_PY, '-m', 'pyvc.fuzz', ','.join(modules), key, '--n', str(b.get('n', 3000)),
+                                    '--seconds', str(b.get('seconds', 20) * (1 if tier == 'quick' else 10)), '--seed', str(seed)],
+                                   env=env, cwd=VERIF, capture_output=True, text=True, timeout=1200)
+                fz = json.loads(p.stdout)
+            except Exception as e:      # noqa
+                fz = {'errors': ['%s' % e], 'failures': [], 'tried': 0, 'accepted': 0}
+            rec = {'function': key, 'tool': 'pyvc.fuzz (generated inputs on the real function, concrete contract evaluation)',
+                   'bound': '%d inputs / %ss, seed %d' % (b.get('n', 3000), b.get('seconds', 20), seed),
+                   'tried': fz.get('tried'), 'accepted': fz.get('accepted'), 'result': 'no failing input' if not fz.get('failures') else 'FAILING INPUT',
+                   'errors': fz.get('errors')}
+            bounded.append(rec)
+            if fz.get('errors') and not fz.get('accepted'):
+                crashed.append((key, 'bounded check could not run: %s' % fz.get('errors')))
+            for hit in fz.get('failures', [])[:1]:
+                oid = '%s.%s.bounded' % (prop, key.split(':')[1])
+                rfile = os.path.join(rdir, oid.replace('/', '_') + '.json')
+                with open(rfile, 'w') as f:
+                    json.dump({'property': prop, 'obligation': oid, 'target': key, 'kind': 'ensures', 'clause': hit['clause'],
+                               'inputs': hit['inputs'], 'result': hit.get('result'), 'modules': modules,
+                               'note': 'failing input found by the bounded check on the real function', 'replay_status': 'reproduced'},
+                              f, indent=1, default=str)
+                violations.append('VIOLATION property=%s replay=%s obligation=%s verdict=bounded-counterexample'
+                                  % (prop, os.path.relpath(rfile, OUT), oid))
     n_obl = len(obligations)
     n_dis = sum(1 for o in obligations.values() if o['verdict'] in ('unsat', 'known'))
     n_known = sum(1 for o in obligations.values() if o['verdict'] == 'known')
@@ -257,6 +286,7 @@ def main():
             'vacuity': {'pre_sat': sum(1 for o in obligations.values() if o['kind'] == 'vacuity' and o['verdict'] == 'unsat'),
                         'must_fail_refuted': sum(1 for o in obligations.values() if o['kind'] == 'must_fail' and o['verdict'] == 'unsat')},
             'traces_validated_against_impl': n_replayed,
+            'bounded': bounded,
             'dropped_constructs': sorted(dropped),
             'degraded': degraded, 'unsupported_targets': [{'target': k, 'reason': m} for k, m in unsupported],
             'unverified_remainder': list(getattr(contracts, 'NOT_COVERED', {}).get(prop, [])),
